@@ -17,6 +17,7 @@ func fftPkgs(p *Program) []string {
 
 func checkC10(c *Ctx) {
 	p := mustLoad(c, K1)
+	indexLints(c, p, "ecc/*/fr/fft", "field/koalabear/fft", "field/babybear/fft", "field/goldilocks/fft")
 	eff := sharedEffects(p)
 	pkgs := fftPkgs(p)
 	c.Rule("C10.codec", "CODEC: Domain.ReadFrom returns a nil error only after every binary.Read / io.ReadFull succeeded, every element passed the canonical ByteOrder.Element and the cardinality is a non-zero power of two within the 2-adicity of the field; it never uses a raw Reader.Read (any reader chunking); the tables of the receiver are rebuilt from the decoded parameters when the decoded precompute flag is set and dropped otherwise; WriteTo tests every write", 10*2)
